@@ -179,6 +179,11 @@ def deref (d : D) (v : Var) : Option Fault :=
   | some none => some (.nullDeref v)
   | some (some _) => none
 
+/-- leaving through a failure block: its actions, then its exit. -/
+def failExit (e : Exit) (d : D) : Except Fault D → Outcome × D
+  | .ok d' => (exitOutcome e, d')
+  | .error f => (.fault f, d)
+
 /-- interpreter; running off the end of the body is `return;`. -/
 def run (c : Cfg) : List Stmt → D → Outcome × D
   | [], d => (.ret none, d)
@@ -194,10 +199,7 @@ def run (c : Cfg) : List Stmt → D → Outcome × D
   | .ifNull tested body e :: rest, d =>
     match anyNull d.env tested with
     | .error v => (.fault (.unbound v), d)
-    | .ok true =>
-      (match runActs d body with
-       | .ok d' => (exitOutcome e, d')
-       | .error f => (.fault f, d))
+    | .ok true => failExit e d (runActs d body)
     | .ok false => run c rest d
   | .load v :: rest, d =>
     match deref d v with
@@ -365,6 +367,52 @@ def makeARDense (nefc : Nat) : List Stmt :=
 /-- engine_derivative.c: effAlloc(d, bytes, align). -/
 def effAlloc (bytes al : Nat) : List Stmt :=
   [.alloc vP bytes al, .ifNull [vP] [] .error, .exit (.ret 0)]
+
+
+/-! ## The list of consumers (every `mj_arenaAllocByte` call site of src/engine) -/
+
+inductive Consumer where
+  | pushPair (v : Variant)
+  | addContact
+  | allocEfc (reqs : List (Nat × Nat))
+  | allocIsland (reqs : List (Nat × Nat))
+  | narrowphaseCon (n : Nat)
+  | flexCon (n : Nat)
+  | flexConElems (n : Nat)
+  | makeYSparse (nefc nY : Nat)
+  | makeYDense (nefc nv : Nat)
+  | makeARSparse (nefc nA : Nat)
+  | makeARDense (nefc : Nat)
+  | effAlloc (bytes al : Nat)
+  deriving Repr
+
+def Consumer.prog : Consumer → List Stmt
+  | .pushPair v => MjProof.ArenaConsumers.pushPair v
+  | .addContact => MjProof.ArenaConsumers.addContact
+  | .allocEfc reqs => MjProof.ArenaConsumers.allocEfc reqs
+  | .allocIsland reqs => MjProof.ArenaConsumers.allocIsland reqs
+  | .narrowphaseCon n => MjProof.ArenaConsumers.narrowphaseCon n
+  | .flexCon n => MjProof.ArenaConsumers.flexCon n
+  | .flexConElems n => MjProof.ArenaConsumers.flexConElems n
+  | .makeYSparse nefc nY => MjProof.ArenaConsumers.makeYSparse nefc nY
+  | .makeYDense nefc nv => MjProof.ArenaConsumers.makeYDense nefc nv
+  | .makeARSparse nefc nA => MjProof.ArenaConsumers.makeARSparse nefc nA
+  | .makeARDense nefc => MjProof.ArenaConsumers.makeARDense nefc
+  | .effAlloc b al => MjProof.ArenaConsumers.effAlloc b al
+
+/-- the pointers each consumer receives from its caller as valid (non-NULL): parameters, and for
+    mj_makeAR the Y arrays that mj_makeY produced (mj_projectConstraint runs mj_makeAR only while
+    `d->nefc` is still non-zero, i.e. when mj_makeY did not fail). -/
+def Consumer.params : Consumer → List Var
+  | .pushPair _ => [vPair]
+  | .addContact => [vCon]
+  | .makeARSparse _ _ => [yVal, yRownnz, yRowadr, yColind]
+  | .makeARDense _ => [yVal]
+  | _ => []
+
+def Consumer.isAsIsPushPair : Consumer → Bool
+  | .pushPair .asIs => true
+  | _ => false
 
 /-! ## Guard table (compared with translate/c20_guards.py) -/
 
